@@ -109,7 +109,9 @@ func VerifC07Seq() {
 				x.pid = old
 			case !exists:
 				verifnd.Assert(x.pid == 0, "C07.ended_session_not_joinable")
-				// a refused join must leave the requester where it was, or out of any session — consistently
+				// a refused join is not a departure: the requester stays where it was (a session must not end
+				// under a participant that neither left nor disconnected)
+				verifnd.Assert(!(c.joined[ci] && x.rh.CurrentSession() == nil), "C07.refused_join_is_not_a_departure", "ended_id")
 				if c.joined[ci] && x.rh.CurrentSession() == nil {
 					c.joined[ci] = false
 				} else {
@@ -127,6 +129,7 @@ func VerifC07Seq() {
 			x.pid = 0
 			x.join("never-existed", 3)
 			verifnd.Assert(x.pid == 0, "C07.unknown_id_refused")
+			verifnd.Assert(!(c.joined[ci] && x.rh.CurrentSession() == nil), "C07.refused_join_is_not_a_departure", "unknown_id")
 			if c.joined[ci] && x.rh.CurrentSession() == nil {
 				c.joined[ci] = false
 			} else {
